@@ -41,6 +41,10 @@ def cases(tier, seed):
             continue
         for rule in ("TopTwo", "Alaska"):
             cs.append((rule, cands, bl, 2, ("random", "borda", "first_place")[k % 3]))
+    # complete ballots, 3 of the 6 orders, weights 1..3: runoffs that are exact ties only after the third candidate's transfer
+    for cands, bl in gen.profiles_exhaustive(3, 3, [F(1), F(2), F(3)], partial=False):
+        k += 1
+        cs.append(("TopTwo", cands, bl, 1, ("random", "borda", "first_place")[k % 3]))
     if tier == "thorough":
         rng = random.Random(seed)
         for cands, bl in gen.profiles_random(rng, 2500, ncands_range=(3, 5), nballots_range=(2, 5), weights=(1, 1, 2)):
@@ -87,19 +91,37 @@ def check_case(case):
     def viol(key, what):
         out["violations"].append({"key": f"C10:{rule}:" + key, "what": what + f" on {desc}", "input": desc})
     runs = []
-    for sd in SEEDS:
-        random.seed(sd)
-        np.random.seed(sd)
-        try:
-            e = make(rule, cands, bl, m, tb)
-        except Exception:
-            return out  # C01/C20
-        out["evals"] += 1
-        runs.append(e)
+    rng_calls = [0]
+    import votekit.utils as U
+    real_sample = U.random.sample
+
+    def counting_sample(population, k):
+        rng_calls[0] += 1
+        return real_sample(population, k)
+    seeds = list(SEEDS)
+    U.random.sample = counting_sample
+    try:
+        i = 0
+        while i < len(seeds):
+            sd = seeds[i]
+            i += 1
+            random.seed(sd)
+            np.random.seed(sd)
+            try:
+                e = make(rule, cands, bl, m, tb)
+            except Exception:
+                return out  # C01/C20
+            out["evals"] += 1
+            runs.append(e)
+            # a random draw was made but no round records a tiebreak: look harder for seed dependence (12 more streams)
+            if i == len(SEEDS) and rng_calls[0] and not any(s.tiebreaks for r_ in runs for s in r_.election_states):
+                seeds += list(range(11, 23))
+    finally:
+        U.random.sample = real_sample
     recorded = [any(s.tiebreaks for s in e.election_states) for e in runs]
     outs = [outcome(e) for e in runs]
     if not any(recorded) and any(o != outs[0] for o in outs):
-        viol("unrecorded-randomness", f"outcome differs between seeds {SEEDS} although no round records a tiebreak: {outs[0]} vs {next(o for o in outs if o != outs[0])}")
+        viol("unrecorded-randomness", f"outcome differs between seeds {seeds} although no round records a tiebreak: {outs[0]} vs {next(o for o in outs if o != outs[0])}")
     if any(recorded) != all(recorded) and False:
         pass
     for e in runs:
